@@ -9,6 +9,7 @@
   messages: d<n> x<n> a<n> E C
 -/
 import PV.Model.ChanWindow
+import PV.Model.ChanNotify
 import PV.Base.DriverIO
 namespace PV.Chan
 
@@ -79,20 +80,47 @@ def parseAct (ws : List String) : Option Act :=
   | ["unlink"] => some .unlink
   | _ => none
 
+/-- the driver also tracks which sleepers the code has notified (`notify_all` in `_window_adjust` and
+    `_set_closed`, PV.Model.ChanNotify); unlike the strict `nstep` it lets any sleeper run (the random schedules
+    use spurious wake-ups) -/
+structure DSt where
+  st : St
+  sig : List Nat
+
+def codeN : NCfg := { adjustAll := true, closeAll := true }
+
+def sigAfter (z : DSt) (a : Act) : List Nat :=
+  match a with
+  | .wake t _ => z.sig.filter (fun u => u != t)
+  | _ => (nstep codeN fixedCfg { base := z.st, sig := z.sig } a).sig
+
+def insertNat (x : Nat) : List Nat → List Nat
+  | [] => [x]
+  | y :: ys => if x < y then x :: y :: ys else if x = y then y :: ys else y :: insertNat x ys
+
+def showSig (l : List Nat) : String :=
+  let u := l.foldr insertNat []
+  if u.isEmpty then "-" else ",".intercalate (u.map toString)
+
+def showD (z : DSt) : String := showSt z.st ++ " N=" ++ showSig z.sig
+
 /-- `init <inWin> <peerWin> <peerMax> <nthr> <combine>` resets the state; `wire` prints the whole wire -/
-def driverStep (cfg : Cfg) (s : St) (line : String) : St × String :=
+def driverStep (cfg : Cfg) (z : DSt) (line : String) : DSt × String :=
+  let s := z.st
   match PV.words line with
   | ["init", a, b, c, d, e] =>
     match a.toNat?, b.toNat?, c.toNat?, d.toNat?, parseBool e with
-    | some a, some b, some c, some d, some e => let s' := init a b c d e; (s', showSt s')
-    | _, _, _, _, _ => (s, "bad-op")
-  | ["wire"] => (s, if s.wire.isEmpty then "-" else ",".intercalate (s.wire.map showMsg))
+    | some a, some b, some c, some d, some e => let z' : DSt := ⟨init a b c d e, []⟩; (z', showD z')
+    | _, _, _, _, _ => (z, "bad-op")
+  | ["wire"] => (z, if s.wire.isEmpty then "-" else ",".intercalate (s.wire.map showMsg))
   | ["ghost"] =>
-    (s, "granted=" ++ toString s.granted ++ " recvd=" ++ toString s.recvd ++ " consumed=" ++ toString s.consumed ++
+    (z, "granted=" ++ toString s.granted ++ " recvd=" ++ toString s.recvd ++ " consumed=" ++ toString s.consumed ++
         " discarded=" ++ toString s.discarded ++ " raced=" ++ b01 s.raced)
   | ws =>
     match parseAct ws with
-    | some a => let s' := step cfg s a; (s', showSt s')
-    | none => (s, "bad-op")
+    | some a => let z' : DSt := ⟨step cfg s a, sigAfter z a⟩; (z', showD z')
+    | none => (z, "bad-op")
+
+def driverInit : DSt := ⟨init 0 0 0 0 false, []⟩
 
 end PV.Chan
